@@ -34,9 +34,12 @@ LEVEL_TEXT = ("Lean theorems over the AOEF model (shared with C01): the document
               "The executable statement of the property (Lean `closed` / `unique` / `parentFirst`, `defs = reachKeys`, "
               "tag contents once) is evaluated on the documents the real code writes — pool-generated graphs, trees "
               "in which every reference is the only path to its target, exhaustive present/absent child lists, parent "
-              "chains of depth 0..5 with shared parents in both conversion orders, histories of saves in one process "
-              "with re-identified objects — and every written document is loaded back through the library's "
-              "single-pass loader, which must reach the same identifiers.")
+              "chains of depth 0..5 with shared parents in both conversion orders, identifiers shared across kinds, "
+              "collections that are instances of user-defined subclasses or come from model_validate / model_copy / "
+              "tuples, histories of saves in one process to one file path (other types over the same Python objects, "
+              "re-identified objects, an object modified in place, a poisoned return value and an `exclude` call in "
+              "between) — and every written document is loaded back through the library's single-pass loader, which "
+              "must reach the same identifiers.")
 LEVEL_NOTE = ("Trusted: Lean kernel; the harness' conversion of the written JSON into the model's Doc layout "
               "(cross-checked on every document by a schema-driven scan of the raw JSON that knows no field name: "
               "identifiers per definition list and per reference row must agree with the Lean accessors). The model "
@@ -49,8 +52,9 @@ TECHNIQUE = ("Lean 4 proof (closure / uniqueness / parent-first / exactness / re
              "model); regenerated reference-table and schema obligations (decide +kernel) from the declared fields; the "
              "same predicates evaluated in Lean on the real documents; differential correspondence of defined vs "
              "reachable identifiers per kind; schema-driven scan of the raw documents; load-back through the real loader")
-RULE = ("distinct (collection, audio_dir) inputs for which the real code wrote a document; non-trivial = the document "
-        "defines at least one object besides the collection itself")
+RULE = ("distinct (collection, audio_dir, construction path) inputs for which the real code wrote a document; "
+        "non-trivial = the document defines at least one object besides the collection itself; a history (several saves "
+        "in one process, every step judged by the model on the content the objects carry at that step) counts once")
 TRUSTED = ["harness/aoef.py: doc_to_model (written JSON -> Lean Doc layout; cross-checked per document by "
            "harness/aoef_schema.py), build (model JSON -> pydantic objects)"]
 ASSUMPTIONS = ["objects with one uuid are one object (the model's WF hypothesis, evaluated by wfB on every input; inputs "
@@ -65,6 +69,21 @@ _CTX = [None]
 _SCHEMA = [None]        # aoef_schema.extract() of this run (None: could not be extracted)
 _TARGETS = [None]       # "owner/path" -> definition list, from the model's reference table
 _TIE_REPORTED = [0, 0]
+
+
+def _ctx():
+    """the running check's context; in --replay mode `run` is not called, so it is looked up on the call stack"""
+    if _CTX[0] is None:
+        import sys
+        from ..core import Ctx
+        f = sys._getframe(1)
+        while f is not None:
+            c = f.f_locals.get("self")
+            if isinstance(c, Ctx):
+                _CTX[0] = c
+                break
+            f = f.f_back
+    return _CTX[0]
 
 
 def _ref_table(ctx):
@@ -104,21 +123,74 @@ def _negative_int(x):
     return False
 
 
-def _observe(inp, load=True):
+def _save(inp, session=None):
+    """build the real objects and `io.save` them.  `inp["how"]`: the construction path of the collection (see
+    c02gen.construct).  Within a history (`session`) the Python objects of earlier steps are *shared* with this
+    step when `inp["share"]` says their content is the same, and every step writes to the same file path (the file
+    of the earlier save is still there)."""
+    import os
+    from soundevent import io
+    b = session["builder"] if (session is not None and inp.get("share")) else aoef.Builder()
+    if inp.get("mutate") and session is not None:
+        # an object that was saved before is modified in place (list append / attribute assignment) and saved again
+        c02gen.apply_mutation(b, inp["mutate"])
+    obj = c02gen.construct(b.collection(inp["collection"]), inp.get("how"))
+    if session is not None:
+        path = session.setdefault("path", aoef_impl.tmp_path("hist"))
+    else:
+        path = aoef_impl.tmp_path()
+        if os.path.exists(path):
+            os.remove(path)
+    adir = aoef_impl.adir(inp.get("audio_dir"), inp.get("dir_as", "str"))
+    io.save(obj, path, audio_dir=adir)
+    if inp.get("poison"):
+        _poison(obj, adir, path)
+    return path
+
+
+def _poison(obj, adir, path):
+    """after the save that is judged: convert the same object again, empty every list of the returned AOEF object in
+    place, and save once more with an `exclude` option to another file.  Nothing of this may show in later saves
+    (a returned object that aliases adapter state, an option that leaks into module state)."""
+    import os
+    from soundevent import io
+    from soundevent.io import aoef as A
+    try:
+        res = A.to_aeof(obj, audio_dir=adir)
+        for name in type(res.data).model_fields:
+            v = getattr(res.data, name, None)
+            if isinstance(v, list):
+                for o in v:
+                    for n2 in type(o).model_fields if hasattr(type(o), "model_fields") else ():
+                        w = getattr(o, n2, None)
+                        if isinstance(w, list):
+                            w.clear()
+                v.clear()
+        other = path + ".excluded.json"
+        io.save(obj, other, audio_dir=adir, exclude={"data": {"tags": True, "users": True}})
+        os.remove(other)
+    except Exception:  # noqa: BLE001  (the extra calls are not what is judged)
+        pass
+
+
+def _observe(inp, load=True, session=None):
     """run the real code on one input: save, read the file back as JSON, convert it to the model's layout, and load it
     through the library's own single-pass loader.  No model call here (they are batched)."""
     rec = {"inp": inp}
     try:
-        _obj, path = aoef_impl.save_real(inp["collection"], inp.get("audio_dir"))
+        path = _save(inp, session)
     except Exception as e:  # noqa: BLE001
         rec["out"] = canon_exc(e)
+        if rec["out"]["raise"].startswith("crash:"):
+            rec["out"]["trace"] = repr(e)[:300]
         return rec
     try:
         rec["data"] = json.load(open(path))["data"]
         if load:
             rec["loaded"] = _load_dump(path, inp)
     finally:
-        aoef_impl.cleanup(path)
+        if session is None:
+            aoef_impl.cleanup(path)
     try:
         doc = aoef.doc_to_model(rec["data"])
         if _negative_int(doc):
@@ -211,10 +283,13 @@ def _model_many_safe(ctx, op, args_list):
     return out
 
 
-def _prepare(ctx, cases, load=True):
+def _prepare(ctx, cases, load=True, sessions=None):
     """observe every case (in order: the saves of a history happen one after the other), then ask the model about all
     documents in two batched requests; `_impl_closure` picks the prepared outputs up"""
-    recs = [_observe(inp, load) for inp in cases]
+    recs = [_observe(inp, load, None if sessions is None else sessions[i]) for i, inp in enumerate(cases)]
+    for ses in {id(x): x for x in (sessions or []) if x}.values():
+        if ses.get("path"):
+            aoef_impl.cleanup(ses["path"])
     with_doc = [r for r in recs if "doc" in r]
     reps = dict(zip(map(id, with_doc), _model_many_safe(ctx, "closure", [{"doc": r["doc"]} for r in with_doc])))
     for r in with_doc:
@@ -264,7 +339,7 @@ def _prepared(inp, load=True):
     hit = _PRE.pop(id(inp), None)
     if hit is not None and hit[0] is inp:
         return hit[1]
-    return _prepare(_CTX[0], [inp], load)[0]
+    return _prepare(_ctx(), [inp], load)[0]
 
 
 def _impl_closure(inp):
@@ -281,6 +356,12 @@ def _holds_closure(ctx, inp, out):
         # not a verdict about the property: the conversion / the model's accessors no longer describe the document
         _TIE_REPORTED[0] += 1
         ctx.fail("correspondence", "doc_scan", inp=inp, impl=out.get("tie"), detail=out["tie"])
+    if out.get("unknown_keys") and _TIE_REPORTED[0] < 3:
+        _TIE_REPORTED[0] += 1
+        ctx.fail("correspondence", "doc_keys", inp=inp, detail=f"the document has keys the model does not know: {out['unknown_keys']}")
+    if (out.get("loaded") or {}).get("raise") == "undumpable" and _TIE_REPORTED[0] < 3:
+        _TIE_REPORTED[0] += 1
+        ctx.fail("correspondence", "loaded_dump", inp=inp, detail="the collection the loader returned does not dump to the model's layout")
     if out.get("unconvertible") and _TIE_REPORTED[0] < 3:
         _TIE_REPORTED[0] += 1
         ctx.fail("correspondence", "doc_to_model", inp=inp, detail="the written document no longer converts to the "
@@ -302,10 +383,8 @@ def _cmp_closure(inp, io, mo):
                 extra = sorted(got - want)[:2]
                 return (f"{k}: defined identifiers differ from the reachable objects "
                         f"(reachable but not defined: {missing}; defined but not reachable: {extra})")
-    if io.get("unknown_keys"):
-        return f"the document has keys the model does not know: {io['unknown_keys']}"
     ld = io.get("loaded")
-    if ld is not None:
+    if ld is not None and ld.get("raise") != "undumpable":
         if "raise" in ld:
             return f"the library's loader cannot resolve the document it wrote (load raised {ld['raise']})"
         for k, reach in mo.items():
@@ -505,7 +584,21 @@ def _gen_adapter_ops(rng, n):
 
 
 # ------------------------------------------------------------------ histories
+def _prepare_histories(ctx, hs):
+    """the steps of each history in one session: one builder (Python objects shared between the steps that say so) and
+    one file path"""
+    steps, sessions = [], []
+    for h in hs:
+        ses = {"builder": aoef.Builder()}
+        for st in h["steps"]:
+            steps.append(st)
+            sessions.append(ses)
+    _prepare(ctx, steps, True, sessions)
+
+
 def _impl_closure_history(inp):
+    if not all(id(st) in _PRE for st in inp["steps"]):
+        _prepare_histories(_ctx(), [inp])
     return [_impl_closure(st) for st in inp["steps"]]
 
 
@@ -526,9 +619,12 @@ def _cmp_closure_history(inp, io, mo):
 
 
 def _history_cases(rng, n):
-    """several collections over the *same* pools of objects, saved one after the other in one process: other types
-    over the same objects, the same type twice with other members, the first collection again, and the first collection
-    with some kinds of objects re-identified (what the annotations, notes, clips refer to differs between two saves)"""
+    """several collections over the *same* pools of objects, saved one after the other in one process **to one file
+    path**: other types over the same objects, the same type twice with other members, the first collection again
+    (alternating with another one), and the first collection with some kinds of objects re-identified (what the
+    annotations, notes, clips refer to differs between two saves).  Steps whose objects have the content seen before
+    *share the Python objects* of the earlier steps (`share`); a step can be an instance of a user-defined subclass or
+    come from `model_copy` / `model_validate` (`how`)."""
     out = []
     for _ in range(n):
         g = aoefgen.Gen(rng, base="/data/audio")
@@ -537,9 +633,22 @@ def _history_cases(rng, n):
         steps = [{"collection": g.collection(ty), "audio_dir": d()} for ty in tys]
         first = steps[0]
         steps.append({"collection": g.collection(tys[0]), "audio_dir": first["audio_dir"]})    # same type, other members
+        steps.append(copy.deepcopy(first))                                                      # the very same again
         kinds = rng.sample(["user", "tag", "recording", "clip", "sound_event", "sequence"], rng.randint(1, 3))
         steps.append({"collection": c02gen.reidentify(first["collection"], kinds), "audio_dir": first["audio_dir"]})
+        steps.append(copy.deepcopy(steps[1]))
         steps.append(copy.deepcopy(first))
+        seen = {}
+        for st in steps:
+            st["share"] = c02gen.coherent_with(seen, st["collection"])
+            st["how"] = rng.choice(["plain", "plain", "plain", "copy_shallow", "copy_deep", "subclass", "validate"])
+            st["poison"] = rng.random() < 0.3
+            st["dir_as"] = rng.choice(["str", "path"])
+        # last: an object every earlier step shared is modified in place, and the first collection saved again
+        mut = c02gen.pick_mutation(rng, first["collection"])
+        if mut is not None:
+            steps.append({"collection": c02gen.mutate_json(first["collection"], mut), "audio_dir": first["audio_dir"],
+                          "share": True, "how": "plain", "mutate": mut})
         out.append({"steps": steps})
     return out
 
@@ -688,8 +797,11 @@ def _gen_cases(ctx, rng, n_per_type, size=1.0):
         for _ in range(n_per_type):
             base = rng.choice(["/data/audio", "/", None])
             cj = aoefgen.gen_collection(rng, ty, rich=rng.random() < 0.2, base=base, size=size)
-            cases.append({"collection": cj, "audio_dir": base if (base and rng.random() < 0.5) else None})
+            how = rng.choice(c02gen.HOWS) if rng.random() < 0.5 else "plain"
+            cases.append({"collection": cj, "audio_dir": base if (base and rng.random() < 0.5) else None, "how": how,
+                          "dir_as": rng.choice(["str", "path"])})
             ctx.tally("type:" + ty)
+            ctx.tally("constructed:" + how)
     return _wf_filter(ctx, cases)
 
 
@@ -701,7 +813,8 @@ def _directed(ctx, rng):
     ctx.tally("present/absent child lists (exhaustive)", len(pres))
     seqs = _wf_filter(ctx, c02gen.sequence_cases(rng))
     ctx.tally("parent chains (depth 0..5, shared parents, both orders)", len(seqs))
-    return tree + pres + seqs
+    other = [dict(c, how=rng.choice(c02gen.HOWS)) for c in pres + seqs]
+    return tree + other + [c02gen.large_case(rng)]
 
 
 def _enough(ctx):
@@ -712,6 +825,55 @@ def _enough(ctx):
             ctx.note("stopped early: ten concrete violations found, the remaining generated cases were not run")
         return True
     return False
+
+
+def _in_fresh_process(steps):
+    """the written documents of a sequence of saves in a fresh interpreter (None: the worker could not be run)"""
+    import os
+    import subprocess
+    import sys
+    from .. import leanio
+    env = dict(os.environ)
+    env["SOUNDEVENT_SRC"] = os.environ.get("SOUNDEVENT_SRC", "/repo/src")
+    try:
+        p = subprocess.run([sys.executable, "-m", "harness.c02_worker"], cwd=leanio.VERIF, env=env, text=True,
+                           input=json.dumps({"steps": steps}) + "\n", stdout=subprocess.PIPE, stderr=subprocess.DEVNULL,
+                           timeout=120)
+        return json.loads(p.stdout.strip().splitlines()[-1])
+    except Exception:  # noqa: BLE001
+        return None
+
+
+def _isolate(ctx):
+    """a single save that fails *in this process* may fail only because of what earlier saves left behind.  The
+    smallest failure of each kind of message (they are the ones that become replays) is tried again in a fresh
+    interpreter: when the document written there is fine, the replay of that input alone would not reproduce — the
+    failures of that kind are kept (they are violations: the property quantifies over histories) but say so and are
+    listed after the failures that reproduce from their own input (the histories are self-contained)."""
+    groups = {}
+    for f in ctx.failures:
+        if f.kind == "property" and f.op == "closure":
+            groups.setdefault(f.detail[:60], []).append(f)
+    for sig, fs in sorted(groups.items(), key=lambda kv: min(f.size() for f in kv[1]))[:6]:
+        f = min(fs, key=lambda f: f.size())
+        docs = _in_fresh_process([f.inp])
+        if not docs or not isinstance(docs[0], dict) or "raise" in docs[0]:
+            continue
+        rec = {"inp": f.inp, "data": docs[0]}
+        try:
+            rec["doc"] = aoef.doc_to_model(docs[0])
+            rep = _model_many_safe(ctx, "closure", [{"doc": rec["doc"]}])[0]
+            out = _judge(ctx, rec, rep, None)
+            mo = ctx.model("reach", {"collection": f.inp["collection"]})
+        except Exception:  # noqa: BLE001
+            continue
+        if out.get("problems") or _cmp_closure(f.inp, out, mo):
+            continue                      # fails in a fresh process too: the input alone is the replay
+        for g in fs:
+            g.detail += (" [only after earlier saves in the same process: a fresh process writes a correct document "
+                         "for this input; the closure_history replays are self-contained sequences]")
+            g.size = lambda: 10 ** 9      # listed after the failures whose own input reproduces them
+        ctx.tally("kinds of failure that need the earlier saves of the process")
 
 
 def _run_closure(ctx, cases, op="closure", load=True, chunk=400):
@@ -728,10 +890,10 @@ def _run_closure(ctx, cases, op="closure", load=True, chunk=400):
 
 def _run_histories(ctx, hc, chunk=10):
     for i in range(0, len(hc), chunk):
-        if _enough(ctx):
+        if sum(1 for f in ctx.failures if f.kind == "property" and f.op == "closure_history") >= 5:
             return
         part = hc[i:i + chunk]
-        _prepare(ctx, [st for h in part for st in h["steps"]])
+        _prepare_histories(ctx, part)
         ctx.run_cases(OPS["closure_history"], part)
         _PRE.clear()
 
@@ -753,6 +915,12 @@ def _correspondence(ctx):
     cases = _gen_cases(ctx, ctx.rng, ctx.budget(120, 3000))
     _run_closure(ctx, cases)
     _run_closure(ctx, _gen_cases(ctx, ctx.rng, ctx.budget(6, 30), size=2.5))
+    # identifiers shared *across* kinds (a clip with the uuid of its recording, an annotation and a prediction with the
+    # uuid of their sound event): the lists of a document are per kind
+    cross = [dict(c, collection=x) for c in cases[::3] for x in [c02gen.cross_kind_uuids(c["collection"])] if x]
+    cross = _wf_filter(ctx, cross)
+    _run_closure(ctx, cross)
+    ctx.tally("identifiers shared across kinds", len(cross))
     # one uuid, two contents (outside the coherence hypothesis): closure and parent order are monitored only
     split = [dict(c, collection=s) for c in cases[::3] for s in [c02gen.split_identity(ctx.rng, c["collection"])] if s]
     _in, outside = _wf_split(ctx, split)
@@ -777,13 +945,20 @@ def _correspondence(ctx):
     ctx.note(f"operational save model agrees with the real documents including list order and tag ids on {agree}/{len(sample)} collections")
     ctx.tally("op_save exact-order agreement", agree)
     ctx.tally("op_save exact-order cases", len(sample))
+    # one collection obtained in several ways (constructors, user-defined subclasses, model_validate, model_copy,
+    # tuples) and saved each time: the same identifiers again and again in one process
+    trees = [c for c in _wf_filter(ctx, c02gen.tree_cases(random.Random("C02-construct"))) if c["audio_dir"] is None]
+    vh = [{"steps": [dict(copy.deepcopy(c), how=how, share=False, label=None) for how in hows]}
+          for c in trees + ot for hows in (("plain", "subclass", "validate", "tuples"), ("subclass", "copy_deep", "validate_json", "copy_shallow"))]
+    _run_histories(ctx, vh)
+    ctx.tally("construction-variant histories (4 saves of one collection each)", len(vh))
     # histories: collections of several types over the same pools of objects, saved in one process
     hc = _history_cases(ctx.rng, ctx.budget(40, 300))
     oks = ctx.driver.call_many("C01", "wf", [{"collection": s["collection"]} for h in hc for s in h["steps"]])
     it = iter(oks)
     hc = [h for h in hc if all([next(it) for _ in h["steps"]])]
     _run_histories(ctx, hc)
-    ctx.tally("closure-history cases (7 saves each)", len(hc))
+    ctx.tally("closure-history cases (9-10 saves each, one process, one file, shared Python objects, one modified in place)", len(hc))
     # adapters.py as a state machine: random operation sequences on the real UserAdapter / TagAdapter
     enforced, info = _gen_adapter_ops(ctx.rng, ctx.budget(600, 20000))
     ctx.run_cases(OPS["adapter_ops"], enforced)
@@ -798,6 +973,7 @@ def _correspondence(ctx):
              f"outcome depends on the id numbering, which is not pinned): exact agreement with the operational model on {agree}/{len(info)}")
     ctx.tally("adapter_ops informational agreement", agree)
     ctx.tally("adapter_ops informational cases", len(info))
+    _isolate(ctx)
 
 
 def run(ctx):
